@@ -31,7 +31,7 @@ pub fn generate(tier: &str, rng: &mut Rng) -> Vec<Spec> {
     let t = tier == "thorough"; let mut v = vec![];
     // exhaustive short programs over the five operations (values cycle through a small alphabet), widths 1..3(4)
     let opsyms = ["f", "c", "r", "g", "d"];
-    for kind in KINDS { for n in 1..=(if t { 4 } else { 3 }) { for l in 1..=(if t { 6 } else { 5 }) { for prog in super::all_seqs(&opsyms, l) {
+    for kind in KINDS { for n in 1..=(if t { 4 } else { 3 }) { for l in 1..=(if t { 6 } else { 5 }) { for prog in crate::util::all_seqs(&opsyms, l) {
         if !t && l == 5 && prog[0] != "f" { continue; }
         let mut ops = vec![]; let mut slots = 1usize; let mut val = 0i64;
         for (i, o) in prog.iter().enumerate() { let slot = i % slots; match *o {
